@@ -95,7 +95,18 @@ fn main() {
     }
     let mut ctx = Ctx::new(&id, tier, seed, replay);
     ctx.extra.insert("regression_replays_run".into(), regress_n.into());
-    if !vh::props::run(&id, &mut ctx) {
+    // safety net: a panic that escapes a sub-check (library code called outside `explore` /
+    // `no_panic`) must not take the report with it - what was found before it stands (exit 1 if
+    // a violation was reported), the rest of the run is inconclusive (exit 2), never a pass
+    let known = match std::panic::catch_unwind(std::panic::AssertUnwindSafe(|| vh::props::run(&id, &mut ctx))) {
+        Ok(k) => k,
+        Err(_) => {
+            let m = engine::take_last_panic().unwrap_or_else(|| "<unknown panic>".into());
+            ctx.inconclusive.push(format!("a panic escaped a sub-check, the remaining sub-checks did not run: {m}"));
+            true
+        }
+    };
+    if !known {
         eprintln!("unknown property {id}");
         std::process::exit(2);
     }
